@@ -431,6 +431,11 @@ class Serializer:
         Raises:
             ValueError: if the
         """
+        meas_ops = list(meas_ops)
+        keys = [op['key'] for op in meas_ops]
+        if len(set(keys)) != len(keys):
+            # Results come back as one entry per key, so a repeated key would lose a measurement.
+            raise ValueError(f'Measurement keys for IonQ API must be distinct. Keys were {keys}')
         key_values = [f'{op["key"]}{chr(31)}{op["targets"]}' for op in meas_ops]
         full_str = chr(30).join(key_values)
         # IonQ maximum value size for metadata.
